@@ -190,6 +190,21 @@ def check(ctx: Ctx) -> list[RuleResult]:
                             r1.fail(f"{f.short}:{norm(t)}:unchecked-source", f.loc(n), f"{f.short} sets {norm(t)} from `{norm(v)}`, which did not go through set_parent")
                     else:
                         r1.fail(f"{f.short}:{norm(t)}:unchecked-source", f.loc(n), f"{f.short} sets {norm(t)} from `{norm(v)[:40]}`, which did not go through set_parent")
+    # the parent-change check itself: in _get_parent a top-level `raise SystemSchemaInconsistent` fires whenever the child already
+    # has a parent and it is not the one offered - no further condition may excuse it (truth table over the test's atoms)
+    from .common import edge_implies, expand as _expand
+
+    gp = repo.func(f"{EB}.Child._get_parent")
+    r1.instances += 1
+    r1.nontrivial += 1
+    premise = ast.parse("self._parent and self._parent != parent", mode="eval").body
+    guards_gp = [st for st in gp.node.body if isinstance(st, ast.If) and any(isinstance(b, ast.Raise) and "SystemSchemaInconsistent" in norm(b) for b in st.body) and any(isinstance(x, ast.Attribute) and x.attr == "_parent" for x in ast.walk(_expand(gp.node, st.test)))]
+    if not guards_gp:
+        r1.fail(f"{gp.short}:no-parent-change-check", gp.loc(), "_get_parent no longer raises SystemSchemaInconsistent when the child already has a different parent")
+    elif any(edge_implies(premise, True, _expand(gp.node, st.test)) for st in guards_gp):  # type: ignore[arg-type]
+        r1.ok({"check": f"_get_parent: {norm(guards_gp[0].test)[:70]}", "fires_whenever": "self._parent and self._parent != parent"})
+    else:
+        r1.fail(f"{gp.short}:parent-change-check-weakened", gp.loc(guards_gp[0]), f"the parent-change check `{norm(guards_gp[0].test)[:90]}` no longer fires for every child that already has a different parent: some such child is silently moved/claimed by a second parent")
     out.append(r1)
 
     # ---- R2 ---------------------------------------------------------------------------
